@@ -167,6 +167,8 @@ struct Tbl {
     rowid2id: HashMap<u64, i32>,
     hist: Vec<String>,
     name: String,
+    nparts: usize,
+    axis: bool, // every vector is c * e_i or zero: cosine distances are exactly 0, 1, 2 or NaN
 }
 
 fn gen_vec(rng: &mut Rng, rows: &[Row], dim: usize, mag: i64, with_nulls: bool) -> Option<Vec<i64>> {
@@ -265,7 +267,19 @@ struct Streams {
     search: Stream,
 }
 
+/// the query runs in its own task so that a panic inside lance surfaces as Err("panic..")
 async fn run_scan(ds: &Dataset, ety: Ety, q: &[i64], qp: &QP) -> Result<Vec<(i32, Option<f32>)>, String> {
+    let (ds, q, qp) = (ds.clone(), q.to_vec(), qp.clone());
+    let prev = std::panic::take_hook();
+    std::panic::set_hook(Box::new(|_| {}));
+    let r = tokio::spawn(async move { run_scan_inner(&ds, ety, &q, &qp).await }).await;
+    std::panic::set_hook(prev);
+    match r {
+        Ok(x) => x,
+        Err(e) => Err(format!("panic: {e}")),
+    }
+}
+async fn run_scan_inner(ds: &Dataset, ety: Ety, q: &[i64], qp: &QP) -> Result<Vec<(i32, Option<f32>)>, String> {
     let _ = ety;
     let qa = Float32Array::from(q.iter().map(|x| *x as f32).collect::<Vec<_>>());
     let mut sc = ds.scan();
@@ -301,6 +315,44 @@ fn cmp_f32(a: f32, b: f32) -> std::cmp::Ordering {
     a.total_cmp(&b)
 }
 
+/// Partitions (row addresses in storage order) of every delta index, in the probe order of `find_partitions`.
+async fn export_partitions(t: &Tbl, q: &[i64], qp: &QP, no_order: bool) -> Result<(Vec<Vec<Vec<u64>>>, usize, bool), String> {
+    let mut deltas = vec![];
+    let mut max_parts = 0usize;
+    let metas = t.ds.load_indices_by_name(IDX).await.map_err(es)?;
+    let pf = DatasetPreFilter::new(Arc::new(t.ds.clone()), &metas, None);
+    let mask_empty = pf.is_empty();
+    for m in &metas {
+        let idx = t.ds.open_vector_index("vec", &m.uuid.to_string(), &NoOpMetricsCollector).await.map_err(es)?;
+        let np = idx.total_partitions();
+        max_parts = max_parts.max(np);
+        let mut order: Vec<usize> = vec![];
+        if !no_order {
+            let qq = Query { column: "vec".into(), key: key_array(t.ety, q), k: qp.k, lower_bound: None, upper_bound: None, minimum_nprobes: qp.nprobes.unwrap_or(np), maximum_nprobes: Some(qp.nprobes.unwrap_or(np)), ef: None, refine_factor: qp.refine, metric_type: qp.metric, use_index: true, dist_q_c: 0.0 };
+            let (parts, _) = idx.find_partitions(&qq).map_err(es)?;
+            order.extend(parts.values().iter().map(|p| *p as usize));
+        }
+        for p in 0..np {
+            if !order.contains(&p) {
+                order.push(p);
+            }
+        }
+        let mut dl = vec![];
+        for p in order {
+            let idx2 = idx.clone();
+            let bs: Vec<RecordBatch> = tokio::spawn(async move { idx2.partition_reader(p, false, &NoOpMetricsCollector).await?.try_collect::<Vec<RecordBatch>>().await }).await.map_err(|e| format!("panic: {e}"))?.map_err(es)?;
+            let mut ids = vec![];
+            for b in &bs {
+                let rid = b.column_by_name("_rowid").unwrap().as_any().downcast_ref::<UInt64Array>().unwrap();
+                ids.extend(rid.values().iter().copied());
+            }
+            dl.push(ids);
+        }
+        deltas.push(dl);
+    }
+    Ok((deltas, max_parts, mask_empty))
+}
+
 /// One `Scanner::nearest` query: oracle + `search` stream.
 async fn query(t: &Tbl, rng: &mut Rng, sink: &mut Sink, st: &mut Streams, qp: QP, arm: &str) -> Result<(), String> {
     let dim = t.dim;
@@ -321,38 +373,23 @@ async fn query(t: &Tbl, rng: &mut Rng, sink: &mut Sink, st: &mut Streams, qp: QP
 
     // ---- partitions of the real index, in the real probe order (model input) + number of partitions
     let mut deltas: Vec<Vec<Vec<u64>>> = vec![];
-    let mut max_parts = 0usize;
+    let mut max_parts = t.nparts;
     let mut mask_empty = true;
+    let mut export_ok = true;
     if indexed {
-        let metas = t.ds.load_indices_by_name(IDX).await.map_err(es)?;
-        let pf = DatasetPreFilter::new(Arc::new(t.ds.clone()), &metas, None);
-        mask_empty = pf.is_empty() && !(has_filter && qp.prefilter);
-        for m in &metas {
-            let idx = t.ds.open_vector_index("vec", &m.uuid.to_string(), &NoOpMetricsCollector).await.map_err(es)?;
-            let np = idx.total_partitions();
-            max_parts = max_parts.max(np);
-            let mut order: Vec<usize> = vec![];
-            if !cosine {
-                let qq = Query { column: "vec".into(), key: key_array(t.ety, &q), k: qp.k, lower_bound: None, upper_bound: None, minimum_nprobes: qp.nprobes.unwrap_or(np), maximum_nprobes: Some(qp.nprobes.unwrap_or(np)), ef: None, refine_factor: qp.refine, metric_type: qp.metric, use_index: true, dist_q_c: 0.0 };
-                let (parts, _) = idx.find_partitions(&qq).map_err(es)?;
-                order.extend(parts.values().iter().map(|p| *p as usize));
+        match export_partitions(t, &q, &qp, cosine || t.axis).await {
+            Ok((d, mp, me)) => {
+                deltas = d;
+                max_parts = mp;
+                mask_empty = me && !(has_filter && qp.prefilter);
             }
-            for p in 0..np {
-                if !order.contains(&p) {
-                    order.push(p);
+            Err(e) => {
+                export_ok = false;
+                sink.count("partition-export-failed");
+                if !sink.notes.iter().any(|n| n.starts_with("partition export failed")) {
+                    sink.notes.push(format!("partition export failed ({:?}): {}", t.ety, e.chars().take(160).collect::<String>()));
                 }
             }
-            let mut dl = vec![];
-            for p in order {
-                let bs: Vec<RecordBatch> = idx.partition_reader(p, false, &NoOpMetricsCollector).await.map_err(es)?.try_collect().await.map_err(es)?;
-                let mut ids = vec![];
-                for b in &bs {
-                    let rid = b.column_by_name("_rowid").unwrap().as_any().downcast_ref::<UInt64Array>().unwrap();
-                    ids.extend(rid.values().iter().copied());
-                }
-                dl.push(ids);
-            }
-            deltas.push(dl);
         }
     }
     let exact_mode = !indexed || qp.nprobes.map(|n| n >= max_parts).unwrap_or(false);
@@ -485,7 +522,7 @@ async fn query(t: &Tbl, rng: &mut Rng, sink: &mut Sink, st: &mut Streams, qp: QP
     }
 
     // ---- model stream (exact-integer metrics; partial probing uses the real probe order; late search is not modelled)
-    if !cosine && !late_mode {
+    if (!cosine || t.axis) && !late_mode && export_ok {
         let mk = |r: &Row| crow(r.id as i64, &exact_key(qp.metric, &q, &r.vec), r.deleted, qp.flt.pass(r));
         let mut unknown = 0i64;
         let mut dl_s = vec![];
@@ -543,7 +580,7 @@ async fn query(t: &Tbl, rng: &mut Rng, sink: &mut Sink, st: &mut Streams, qp: QP
 
 /// Direct calls of IVFIndex::search_in_partition on every partition (streams `part`, `merge`).
 async fn unit_streams(t: &Tbl, rng: &mut Rng, sink: &mut Sink, st: &mut Streams) -> Result<(), String> {
-    if !t.has_index || t.metric == MetricType::Cosine {
+    if !t.has_index || t.metric == MetricType::Cosine || t.ety != Ety::F32 {
         return Ok(());
     }
     let metas = t.ds.load_indices_by_name(IDX).await.map_err(es)?;
@@ -704,10 +741,15 @@ async fn max_partitions(t: &Tbl) -> Result<usize, String> {
 }
 
 async fn table_history(ti: usize, dir: &std::path::Path, rng: &mut Rng, sink: &mut Sink, st: &mut Streams, args: &Args) -> Result<(), String> {
-    let ety = match ti % 4 {
-        2 => Ety::F16,
-        3 => Ety::F64,
-        _ => Ety::F32,
+    let ety = match std::env::var("HX_C22_ETY").ok().as_deref() {
+        Some("f16") => Ety::F16,
+        Some("f64") => Ety::F64,
+        Some("f32") => Ety::F32,
+        _ => match ti % 4 {
+            2 => Ety::F16,
+            3 => Ety::F64,
+            _ => Ety::F32,
+        },
     };
     let dim = *rng.pick(&[1usize, 2, 3, 5, 7, 8, 9, 13, 16, 17, 24, 31, 33, 40]);
     let mag = if ety == Ety::F16 { *rng.pick(&[1i64, 2, 3]) } else { *rng.pick(&[1i64, 2, 4]) };
@@ -723,7 +765,7 @@ async fn table_history(ti: usize, dir: &std::path::Path, rng: &mut Rng, sink: &m
     let b = mk_batch(&schema, ety, dim, &rows);
     let mrf = *rng.pick(&[n0, n0 / 2 + 1, n0 / 3 + 1]);
     let ds = Dataset::write(RecordBatchIterator::new(vec![Ok(b)], schema.clone()), &uri, Some(WriteParams { max_rows_per_file: mrf, ..Default::default() })).await.map_err(es)?;
-    let mut t = Tbl { ds, schema: schema.clone(), rows, dim, ety, mag, with_nulls, metric, has_index: false, rowid2id: HashMap::new(), hist: vec![], name };
+    let mut t = Tbl { ds, schema: schema.clone(), rows, dim, ety, mag, with_nulls, metric, has_index: false, rowid2id: HashMap::new(), hist: vec![], name, nparts: 0, axis: false };
     t.hist.push(format!("write {n0} rows ({:?}, dim {dim}, |x|<={mag}, nulls={with_nulls}, max_rows_per_file={mrf})", ety));
     t.refresh().await?;
     sink.count(&format!("table:{:?}:{:?}", ety, metric));
@@ -745,6 +787,7 @@ async fn table_history(ti: usize, dir: &std::path::Path, rng: &mut Rng, sink: &m
     match t.ds.create_index(&["vec"], IndexType::Vector, Some(IDX.into()), &VectorIndexParams::ivf_flat(nparts, metric), true).await {
         Ok(_) => {
             t.has_index = true;
+            t.nparts = nparts;
             t.hist.push(format!("create_index IVF_FLAT partitions={nparts} {:?}", metric));
         }
         Err(e) => {
